@@ -13,10 +13,21 @@ readings, one per loop iteration; a script is what successive `recv` calls find.
 -/
 namespace Bobo.Frame
 
-/-- **C10, delivery**: a complete message is recognised — as exactly `m`, nothing more, nothing less —
-for every way of cutting it into non-empty pieces (pieces longer than `recv_bytes` are read in several
-calls, a last piece shorter than `minLen` included), for every clock that stays below the timeout. -/
-theorem chunking_irrelevant (cfg : Cfg) (hn : 0 < cfg.recvBytes) (m : Bytes) (hm : m ≠ [])
+/-- The full statement of the delivery clause of C10: *every* framed message is delivered under every cut.
+It is **false** of this framing (`chunking_irrelevant_full_is_false`, finding F9, open): a marker inside the
+ciphertext at a read boundary ends the message early.  What is proved is `chunking_irrelevant_partial`,
+which adds exactly the hypothesis `NoEarlyFrame cfg m`. -/
+def ChunkingIrrelevantFull (cfg : Cfg) : Prop :=
+  ∀ (m : Bytes), m ≠ [] → Framed cfg m →
+  ∀ (cs : List Bytes), (∀ c ∈ cs, c ≠ []) → cs.flatten = m →
+  ∀ (accepted : Int) (clock : List Int), (∀ t ∈ clock, t - accepted < cfg.timeout) → m.length ≤ clock.length →
+    (recvLoop cfg accepted clock (cs.map .chunk) [] 0).out = .frame m
+
+/-- **C10, delivery** (partial: under `NoEarlyFrame`): a complete message is recognised — as exactly `m`,
+nothing more, nothing less — for every way of cutting it into non-empty pieces (pieces longer than
+`recv_bytes` are read in several calls, a last piece shorter than `minLen` included), for every clock that
+stays below the timeout. -/
+theorem chunking_irrelevant_partial (cfg : Cfg) (hn : 0 < cfg.recvBytes) (m : Bytes) (hm : m ≠ [])
     (hF : Framed cfg m) (hNE : NoEarlyFrame cfg m)
     (cs : List Bytes) (hcs : ∀ c ∈ cs, c ≠ []) (hjoin : cs.flatten = m)
     (accepted : Int) (clock : List Int)
@@ -132,6 +143,16 @@ theorem noEarlyFrame_forced :
     Framed cfg m ∧ ¬ NoEarlyFrame cfg m ∧
     (recvLoop cfg 100 [100, 100, 100] [.chunk (m.take 6), .chunk (m.drop 6)] [] 0).out = .frame (m.take 6) ∧
     (recvLoop cfg 100 [100, 100, 100] [.chunk m] [] 0).out = .frame m := by decide
+
+/-- hence the full statement fails (for the framing itself, not for a coding slip). -/
+theorem chunking_irrelevant_full_is_false : ¬ ∀ cfg, 0 < cfg.recvBytes → ChunkingIrrelevantFull cfg := by
+  intro h
+  have := h { minLen := 6, marker := [66, 79, 66, 79], timeout := 3, recvBytes := 64 } (by decide)
+    [1, 2, 66, 79, 66, 79, 7, 8, 66, 79, 66, 79] (by decide) (by decide)
+    [[1, 2, 66, 79, 66, 79], [7, 8, 66, 79, 66, 79]] (by decide) (by decide)
+    100 (List.replicate 12 100) (by decide) (by decide)
+  revert this
+  decide
 
 /-- finding F7 (pinned tree): testing the *last chunk* drops a message whose last read is shorter than
 `minLen` — 12 bytes read as 8 + 4 run into the timeout, while the repaired loop delivers them. -/
